@@ -26,7 +26,7 @@
 From Coq Require Import List ZArith NArith Bool.
 From Astisub Require Import Kit.Base Kit.Str Kit.Scan Model.Dur Model.Ssa.
 From Coq Require Import Permutation.
-From Astisub Require Import Proofs.EolProofs Proofs.SsaFields Proofs.SsaText Proofs.SsaRows Proofs.SsaDoc Proofs.SsaInfo Proofs.SsaInfoOrder Proofs.SsaIgnore Proofs.SsaOrder Proofs.SsaRepr Proofs.SsaRead Proofs.SsaReadAny Proofs.SsaEvents Proofs.SsaWriteRender.
+From Astisub Require Import Proofs.EolProofs Proofs.SsaFields Proofs.SsaText Proofs.SsaRows Proofs.SsaDoc Proofs.SsaInfo Proofs.SsaInfoOrder Proofs.SsaIgnore Proofs.SsaOrder Proofs.SsaRepr Proofs.SsaRead Proofs.SsaReadAny Proofs.SsaEvents Proofs.SsaWriteRender Model.SsaC Proofs.SsaChk.
 Import ListNotations.
 
 (* ---- field codecs ---- *)
@@ -281,3 +281,22 @@ Proof. exact write_denotes_canon. Qed.
 Print Assumptions C04_write_denotes_agrees.
 Example C04_write_denotes_example : exists data, write_ssa ex_doc (style_keys ex_doc) = Ok data /\ read_ssa data = Ok (w_denotation ex_doc).
 Proof. exact (write_denotes ex_doc ex_doc_repr). Qed.
+
+(* ---- the checked transcription (Model/SsaC.v, Proofs/SsaChk.v) ----
+   The correspondence suites of C04 run the CHECKED transcription of ssa.go, in which every run-time panic site of the
+   Go code is an explicit Panic behind the code's own guard (table: notes/C04.md, Real panic sites (C08) -- ssa.go).
+   It is equal to the model on which every theorem above is stated -- the reader for every value of the options (the
+   two callbacks, nil or not), the writer for every document and map order -- so the theorems above are about the
+   functions that are compared with the library, and reader totality has content. *)
+Theorem C04_checked_reader_agrees : forall o ls e, read_ssa_lines_c o ls e = read_ssa_lines ls e.
+Proof. exact read_ssa_lines_c_ok. Qed.
+Print Assumptions C04_checked_reader_agrees.
+Theorem C04_checked_writer_agrees : forall d order, write_ssa_c d order = write_ssa d order.
+Proof. exact write_ssa_c_ok. Qed.
+Print Assumptions C04_checked_writer_agrees.
+Theorem C04_checked_reader_total : forall o ls e p, read_ssa_lines_c o ls e <> Panic p.
+Proof. exact read_ssa_lines_c_no_panic. Qed.
+Print Assumptions C04_checked_reader_total.
+Theorem C04_checked_writer_total : forall d order p, write_ssa_c d order <> Panic p.
+Proof. exact write_ssa_c_no_panic. Qed.
+Print Assumptions C04_checked_writer_total.
